@@ -251,6 +251,12 @@ def h_store(ctx, n_ops, ops=OPS, configs=None):
     hidden = [0]          # rows of the file beyond the store's view (after reopening with n_batches below the file's count)
     hidden_batches = []   # their contents (they become visible again when the file is reopened in full)
 
+    old_handles = []      # idle second handles left behind by pickling
+
+    def close_old():
+        while old_handles:
+            old_handles.pop(0).close()
+
     def fresh():
         tag[0] += 1
         return batch_data(tag[0], dtype, rowshape, bs, layout)
@@ -324,6 +330,7 @@ def h_store(ctx, n_ops, ops=OPS, configs=None):
                 store.flush()
             elif op == 'reopen':
                 store.close()
+                close_old()
                 history[:] = [(logical(), hidden[0])]
                 ctx.claim('op%d_closed_file_is_standard_npy_with_the_content' % k,
                           same_content(load_image(bytes(fs.files[name])), logical(), hidden[0]))
@@ -338,6 +345,7 @@ def h_store(ctx, n_ops, ops=OPS, configs=None):
                 if len(model) < 2:
                     raise core.Infeasible()
                 store.close()
+                close_old()
                 hidden[0] += bs
                 hidden_batches[:] = [model.pop()] + hidden_batches
                 history[:] = [(logical(), hidden[0])]
@@ -347,7 +355,9 @@ def h_store(ctx, n_ops, ops=OPS, configs=None):
                 store2 = pickle.loads(blob)
                 history[:] = [(logical(), hidden[0])]
                 check_store(store2, 'op%d_unpickled' % k)
-                store.close()
+                # the pickled-from object stays around as a second, idle handle on the file and is closed late (at the
+                # next reopen or at the end of the script): closing an unmodified handle must not change the file
+                old_handles.append(store)
                 store = store2
             script.append(op)
             history.append((logical(), hidden[0]))
@@ -360,6 +370,11 @@ def h_store(ctx, n_ops, ops=OPS, configs=None):
                 check_store(store, 'op%d_%s' % (k, op))
             check_crash('op%d_%s' % (k, op))
         ctx.note('config=%s script=%s' % (cfg, script))
+        if old_handles:
+            store.flush()
+            close_old()
+            arr = load_image(bytes(fs.files[name]))
+            ctx.claim('closing_an_idle_second_handle_leaves_the_flushed_file_unchanged', same_content(arr, logical(), hidden[0]))
         store.close()
         arr = load_image(bytes(fs.files[name]))
         ctx.claim('final_close_file_loads_to_content', same_content(arr, logical(), hidden[0]))
